@@ -7,6 +7,10 @@ What it adds to the main stream of `c16.py` (whose type language is the model's)
     NewTypes of them, str literals) with members it has to hand back to the converter — one class, two classes the
     default disambiguator can tell apart, or a collection — at any position a type may occur (top level, class fields,
     inside collections), with values of EVERY member;
+  * unions whose ONLY natively handled members are `Literal[…]`s (str and/or int values, one or two Literal members,
+    with or without None): next to a class / two classes / a collection / a date or datetime, or on their own
+    (`Union[Literal["never"], Literal[1, 2, 3]]`) — the passthrough strategy must take such unions too (histogram keys
+    `ext:union-natives:*`);
   * classes with defaulted fields (so that `omit_if_default=True` omits something) and attrs fields with a converter
     on int/str-typed fields (so that `prefer_attrib_converters=True` selects something);
   * the same user options as the main stream (validation mode, forbid_extra_keys, omit_if_default,
@@ -87,8 +91,33 @@ def make_gen(m, rng):
             r.shuffle(alts)
             return ("elit", alts)
 
+        def literal_members(self):
+            """one or two Literal members with pairwise distinct values (str and int values; typing merges equal ones)"""
+            r = self.rng
+            strs = r.sample([("s", "auto"), ("s", "b"), ("s", "x7"), ("s", ""), ("s", "never"), ("s", "1")], r.randint(1, 3))
+            ints = r.sample([("i", 1), ("i", 2), ("i", 3), ("i", 0), ("i", -1)], r.randint(1, 3))
+            c = r.random()
+            if c < 0.4:
+                ks = [("lit", strs)]
+            elif c < 0.55:
+                ks = [("lit", ints)]
+            elif c < 0.7:
+                mixed = strs[:2] + ints[:1]
+                r.shuffle(mixed)
+                ks = [("lit", mixed)]
+            elif c < 0.85:
+                ks = [("lit", strs), ("lit", ints)]
+            else:
+                ks = [("lit", strs[:1]), ("lit", strs[1:])] if len(strs) > 1 else [("lit", strs), ("lit", ints[:1])]
+            return ks
+
         def native_members(self):
             r = self.rng
+            if r.random() < 0.3:      # the only natively handled members are literals
+                ks = self.literal_members()
+                if r.random() < 0.25:
+                    ks.append("none")
+                return ks
             ks = r.sample(NATIVE_ALL, r.randint(1, 2))
             ks = [("nt", k) if r.random() < 0.55 else k for k in ks]
             if r.random() < 0.15:
@@ -113,7 +142,16 @@ def make_gen(m, rng):
                 el = ("cls", r.choice(data)) if data and r.random() < 0.5 else r.choice(["int", "str", "bytes", "date", "float"])
                 spill = [r.choice([("list", el), ("dict", "str", el), ("tup", [el, "int"]), ("tup*", el),
                                    ("set", r.choice(["int", "str", "bytes"])), ("fset", r.choice(["int", "str"]))])]
-            ms = self.native_members() + spill
+            natives = self.native_members()
+            if not any(isinstance(k, str) or k[0] == "nt" for k in natives if k != "none"):
+                # literal-only natives: also next to a leaf the format may or may not handle natively, or with no
+                # other member at all (two Literal members at least: a one-member Union is no Union)
+                c = r.random()
+                if c < 0.15:
+                    spill = [r.choice(["date", "datetime"])]
+                elif c < 0.4 and len([k for k in natives if k != "none"]) >= 2:
+                    spill = []
+            ms = natives + spill
             r.shuffle(ms)
             return ("sunion", ms)
 
@@ -212,6 +250,41 @@ def has_sunion(m, w, t):
     return has_sunion(m, w, t[1])
 
 
+def union_natives(m, w, t, out=None, seen=None):
+    """for every spill-over union the type reaches: are its natively handled members plain classes / NewTypes, literals only, …"""
+    out = [] if out is None else out
+    seen = set() if seen is None else seen
+    if isinstance(t, str) or t is None:
+        return out
+    k = t[0]
+    if k == "sunion":
+        plain = [x for x in t[1] if x != "none" and (x in NATIVE_ALL or (not isinstance(x, str) and x[0] == "nt"))]
+        lits = [x for x in t[1] if not isinstance(x, str) and x[0] == "lit"]
+        rest = [x for x in t[1] if x != "none" and x not in plain and x not in lits]
+        out.append(("literals-only" if lits and not plain else "plain+literals" if lits else "plain")
+                   + (":no-other-member" if not rest else ""))
+        for x in rest:
+            union_natives(m, w, x, out, seen)
+        return out
+    if k in ("enum", "lit", "nt", "union", "elit"):
+        return out
+    if k == "tup":
+        for x in t[1]:
+            union_natives(m, w, x, out, seen)
+        return out
+    if k in m.MAP_KINDS:
+        union_natives(m, w, t[1], out, seen)
+        return union_natives(m, w, t[2], out, seen)
+    if k in ("cls", "td", "ntc"):
+        if t[1] in seen:
+            return out
+        seen.add(t[1])
+        for f in w["classes"][t[1]]["fields"]:
+            union_natives(m, w, f["ty"], out, seen)
+        return out
+    return union_natives(m, w, t[1], out, seen)
+
+
 def run_ext(chk, m, ran, fmts, skip_strann_msgspec):
     rng = chk.rng
     G = make_gen(m, rng)
@@ -275,6 +348,8 @@ def one(chk, m, R, w, fmt, mod, cfg, t, x):
              "ext:top:" + (t if isinstance(t, str) else t[0]))
     if has_sunion(m, w, t):
         chk.note("ext:reaches-spill-over-union")
+        for kind in sorted(set(union_natives(m, w, t))):
+            chk.note("ext:union-natives:" + kind)
     alts = elit_alts(m, w, t)
     if alts:
         mixed = any(a[0] == "e" for a in alts) and any(a[0] != "e" for a in alts)
